@@ -186,8 +186,8 @@ func (matrix *SparseIntMatrix) SLICE(rfrom, rto, cfrom, cto int) *SparseIntMatri
   return &m
 }
 func (matrix *SparseIntMatrix) AsSparseIntVector() *SparseIntVector {
-  if matrix.cols < matrix.colMax - matrix.colOffset ||
-    (matrix.rows < matrix.rowMax - matrix.rowOffset) {
+  if matrix.rowOffset != 0 || matrix.colOffset != 0 ||
+    matrix.rows != matrix.rowMax || matrix.cols != matrix.colMax {
     n, m := matrix.Dims()
     v := nilSparseIntVector(n*m)
     for it := matrix.ConstIterator(); it.Ok(); it.Next() {
